@@ -88,6 +88,10 @@ Definition kurt_q (s : mst) (nsamps : Z) : Q :=
 Definition skew_sq_q (s : mst) (nsamps : Z) : Q :=
   (if Qeq_bool (s_m2 s) 0 then 0 else s_m3 s * s_m3 s / (s_m2 s * s_m2 s * s_m2 s)) * z2q nsamps.
 Definition skew_num_q (s : mst) : Q := if Qeq_bool (s_m2 s) 0 then 0 else s_m3 s.
+(** std = np.sqrt(self.var): the square root is not rational, so the model carries it as "r is the non-negative number whose
+    square is the variance the record yields" (what IEEE sqrt returns up to one rounding; NaN exactly when the variance is negative) *)
+Definition is_std (r : Q) (s : mst) (nsamps : Z) : Prop := 0 <= r /\ r * r == var_q s nsamps.
+Definition is_std_b (r : Q) (s : mst) (nsamps : Z) : bool := Qle_bool 0 r && Qeq_bool (r * r) (var_q s nsamps).
 
 (** * specification: two-pass definitions over the whole stream *)
 Fixpoint qsum (l : list Q) : Q := match l with [] => 0 | x :: r => x + qsum r end.
